@@ -3,6 +3,7 @@ package c14lab
 import (
 	"bytes"
 	"fmt"
+	"os"
 	"sort"
 	"strings"
 
@@ -102,6 +103,7 @@ type OpCase struct {
 func Prepare(fx *Fix, id string, op *Op, refID string) *OpCase {
 	c := &OpCase{Fx: fx, ID: id, Op: op, Text: op.Text(), Vars: []byte(op.VariablesJSON()), RefID: refID}
 	c.W = NewWalker(fx.Lab.Config.Super, op, fx.P)
+	c.W.Requires = RequiresMap(fx.Lab.Config)
 	sh, err := fx.Lab.Mono(c.W.Instrumented().Text(), op.Name, c.Vars)
 	if err != nil {
 		c.Skip = "lab: shadow: " + err.Error()
@@ -138,13 +140,21 @@ func Prepare(fx *Fix, id string, op *Op, refID string) *OpCase {
 		c.Skip = "baseline: gateway differs from the monolith without any authorizer (C01 territory): " + gw.FirstDiffUnordered(ref.Data, "data")
 		return c
 	}
-	resp, err := fx.Plan(c.Text, op.Name)
+	resp, err := fx.Plan(c.Text, op.Name, c.Vars)
 	if err != nil {
 		c.Skip = "lab: own planning failed: " + fedlab.Trunc(err.Error(), 200)
 		return c
 	}
 	c.Plan = Dump(resp)
+	c.W.PlanIdx = PlanIndex(resp)
 	c.A0 = c.W.Analyze(c.Shadow, None, nil)
+	// the decisions range over every coordinate an authorizer can be asked about for this
+	// operation: those of the response positions (plan-time and runtime) and those the collector
+	// hands to the batch authorizer (which include planner-added root fields of fetches: @key and
+	// @requires inputs the client did not select)
+	for _, tf := range c.Plan.SortedTF() {
+		c.A0.Domain[tf] = true
+	}
 	c.Domain = SortedKeys(c.A0.Domain)
 	return c
 }
@@ -199,6 +209,12 @@ func errPaths(errs *fedlab.J) (paths []string, n, unauthorized int) {
 func (c *OpCase) RunLine(mode Mode, d Decisions) (line string, an *Analysis) {
 	an = c.W.Analyze(c.Shadow, mode, d)
 	res, pf, ba := c.Fx.Run(c.Text, c.Op.Name, c.Vars, mode, d)
+	if os.Getenv("C14_DEBUG") != "" {
+		fmt.Printf("RUN %s mode=%s d=%s\n  response=%s\n", c.ID, mode, d.String(), res.Response)
+		for _, q := range res.Requests {
+			fmt.Printf("  req[%d] %s %s\n     vars=%s\n     -> %s\n", q.Index, q.Subgraph, q.Query, q.Variables.String(), q.Response)
+		}
+	}
 	items := []string{"c14", "run", c.ID, common.L("mode", mode.String()), common.L("optype", c.Op.Kind), common.L("d", common.QS(d.String()))}
 	for _, q := range res.Requests {
 		if q.ExecError != "" {
@@ -215,12 +231,34 @@ func (c *OpCase) RunLine(mode Mode, d Decisions) (line string, an *Analysis) {
 		den = append(den, PathSexp(p))
 	}
 	items = append(items, common.L(den...))
+	// allowed fields whose @requires input is denied: compared separately (requires_input_intact),
+	// masked in the other comparisons
+	starved := []string{}
+	for _, p := range an.Dependent {
+		b, g := GetAt(c.Base.Data, p), GetAt(res.Data, p)
+		if b != nil && (g == nil || !g.Equal(b)) {
+			starved = append(starved, PathString(p))
+		}
+	}
+	gwData := MaskAt(res.Data, an.Dependent)
 	gw := "(absent)"
-	if res.Data != nil {
-		gw = res.Data.Sexp()
+	if gwData != nil {
+		gw = gwData.Sexp()
 	}
 	eps, nerr, nun := errPaths(res.Errors)
 	items = append(items, common.L("gw", gw), common.L(append([]string{"gwerrs"}, eps...)...))
+	if len(an.Dependent) > 0 {
+		base := "(absent)"
+		if c.Base.Data != nil {
+			base = MaskAt(c.Base.Data, an.Dependent).Sexp()
+		}
+		items = append(items, common.L("maskedbase", base))
+	}
+	st := []string{"starved"}
+	for _, x := range starved {
+		st = append(st, common.QS(x))
+	}
+	items = append(items, common.L(st...), common.L("dependent", common.I(len(an.Dependent))))
 	// reference
 	refS, refErrs, goEqual := "(skip)", 0, true
 	if !an.Mixed {
@@ -240,12 +278,13 @@ func (c *OpCase) RunLine(mode Mode, d Decisions) (line string, an *Analysis) {
 		if ref.Invalid != "" {
 			return common.L("c14", "run", c.ID, common.L("laberror", common.QS("reference operation rejected: "+ref.Invalid+" :: "+rop.Text()))), an
 		}
-		refS, refErrs = ref.Data.Sexp(), ref.NErrors
-		g := res.Data
+		refData := MaskAt(ref.Data, an.Dependent)
+		refS, refErrs = refData.Sexp(), ref.NErrors
+		g := gwData
 		if g == nil {
 			g = fedlab.JN()
 		}
-		goEqual = g.EqualUnordered(ref.Data)
+		goEqual = g.EqualUnordered(refData)
 	}
 	items = append(items, common.L("ref", refS), common.L("referrs", common.I(refErrs)))
 	// collector_complete (run level): protected plan-time coordinates seen vs asked
@@ -272,6 +311,13 @@ func (c *OpCase) RunLine(mode Mode, d Decisions) (line string, an *Analysis) {
 	// requests sent, with the coordinates of their root fields
 	rq := []string{"reqs"}
 	sentKeys := map[string]int{}
+	planRoots := map[string]int{}
+	for _, f := range c.Plan.Fetches {
+		k := f.DSName + "|" + stripWS(f.Query)
+		if n, ok := planRoots[k]; !ok || len(f.Roots) < n {
+			planRoots[k] = len(f.Roots)
+		}
+	}
 	for _, q := range res.Requests {
 		ot, roots, err := ReqRoots(c.Fx.Lab.Config.Super, q.Query)
 		if err != nil {
@@ -282,7 +328,12 @@ func (c *OpCase) RunLine(mode Mode, d Decisions) (line string, an *Analysis) {
 			tf := r[0] + "." + r[1]
 			rs = append(rs, common.L("r", common.QS(r[0]), common.QS(r[1]), common.B(c.Fx.P[tf]), common.B(c.Fx.P[tf] && d[tf])))
 		}
-		rq = append(rq, common.L("rq", common.QS(q.Subgraph), ot, common.L(rs...)))
+		// the number of FetchInfo.RootFields of the planned fetch this request belongs to (-1: not matched)
+		pr := -1
+		if n, ok := planRoots[q.Subgraph+"|"+stripWS(q.Query)]; ok {
+			pr = n
+		}
+		rq = append(rq, common.L("rq", common.QS(q.Subgraph), ot, common.L(rs...), common.I(pr)))
 		sentKeys[q.Subgraph+"|"+stripWS(q.Query)]++
 	}
 	items = append(items, common.L(rq...))
@@ -333,6 +384,15 @@ func (c *OpCase) RunLine(mode Mode, d Decisions) (line string, an *Analysis) {
 		items = append(items, common.L("resp", common.Q(res.Response)))
 	}
 	items = append(items, common.L("flags", common.L("sentinel", common.B(len(leaked) == 0)), common.L("goequal", common.B(goEqual)), common.L("mixed", common.B(an.Mixed)), common.L("merged", common.B(an.Mixed || an.MultiCoord))))
+	hid := []string{"hidden"}
+	if mode == Pre {
+		for _, tf := range c.Plan.SortedTF() {
+			if d[tf] && !an.Seen[tf] {
+				hid = append(hid, common.QS(tf))
+			}
+		}
+	}
+	items = append(items, common.L(hid...))
 	dcs := append([]string(nil), an.DeniedCoords...)
 	sort.Strings(dcs)
 	items = append(items, common.L("sum", common.L("positions", common.I(an.Positions)), common.L("protected", common.I(an.Protected)),
@@ -341,4 +401,22 @@ func (c *OpCase) RunLine(mode Mode, d Decisions) (line string, an *Analysis) {
 		common.L("requests", common.I(len(res.Requests))), common.L("baserequests", common.I(len(c.Base.Requests))),
 		common.L("errors", common.I(nerr)), common.L("unauthorized", common.I(nun)), common.L("domain", common.I(len(c.Domain)))))
 	return common.L(items...), an
+}
+
+// RequiresMap lists, per "Type.field", the field names of its @requires selection.
+func RequiresMap(cfg *fedlab.Config) map[string][]string {
+	out := map[string][]string{}
+	for _, g := range cfg.Subgraphs {
+		for _, st := range g.Types {
+			for _, f := range st.Fields {
+				if f.Requires == "" {
+					continue
+				}
+				for _, tok := range strings.Fields(strings.NewReplacer("{", " ", "}", " ").Replace(f.Requires)) {
+					out[st.Name+"."+f.Name] = append(out[st.Name+"."+f.Name], tok)
+				}
+			}
+		}
+	}
+	return out
 }
